@@ -44,3 +44,15 @@ def queries():
     extra = [q for q in C11.queries() if q.tier == "quick" and (q.name.startswith("vrfy-i15-") or q.name.startswith("vrfy-i31-") or q.name.startswith("atr-L") or q.name.startswith("rtt-L"))]
     extra += [q for q in C10.queries() if q.tier == "quick" and q.name.startswith("p1unpad-")]
     return _c04_queries() + extra
+
+
+# ---- eqOID native of the decoders (curve / algorithm identification), added after the seeded change C18c escaped
+_c04_q2 = queries
+def queries():
+    qs = _c04_q2()
+    try:
+        import C18_eqoid_part
+        qs = qs + [q for q in C18_eqoid_part.queries() if q.name.endswith("x509min")]
+    except Exception:
+        pass
+    return qs
